@@ -1049,6 +1049,13 @@ func (x *Exec) defineRec(e *Env, sf *SpecFn, spkg *packages.Package, name string
 				params = append(params, a.T)
 				continue
 			}
+			if s := e.R().sortOf(t); s != nil && s.K == KUn {
+				// interface or abstract type: one value of its uninterpreted sort
+				v := Var(p.Name+"$p", s)
+				names[p.Name] = Scalar{v, t}
+				params = append(params, v)
+				continue
+			}
 			unsupported("rec spec %s: parameter type %s", sf.Name, t)
 		}
 	}
@@ -1074,6 +1081,12 @@ func (x *Exec) defineRec(e *Env, sf *SpecFn, spkg *packages.Package, name string
 		x.defTerms = map[string]*Term{}
 	}
 	x.defTerms[name] = bs.T
+	if x.defParams == nil {
+		x.defParams = map[string][]*Term{}
+		x.defIsRec = map[string]bool{}
+	}
+	x.defParams[name] = params
+	x.defIsRec[name] = !sf.Fun
 }
 
 // ---------------------------------------------------------------- function calls
